@@ -467,9 +467,50 @@ def drbg_oracle(d):
     return None
 
 
+def crafted_seed(target_v, rng, pers=None):
+    """a 48-byte entropy input such that, right after randombytes_init(seed, pers), V == target_v (16 bytes).
+    Instantiate starts from Key = 0, V = 0, so V_after = AES256(0^256, be128(3)) xor seed_material[32..47]
+    (computed with the independent pure-Python AES above)."""
+    e3 = aes256(bytes(32), (3).to_bytes(16, "big"))
+    sm = rbytes(rng, 32) + bytes(a ^ b for a, b in zip(e3, target_v))
+    if pers:
+        sm = bytes(a ^ b for a, b in zip(sm, pers))
+    return sm
+
+
+def crafted_drbg_lines(rng, quick, hist=None):
+    """structured DRBG histories: V right after instantiate has every carry-chain shape — low k bytes 0xff for
+    k = 1..16 (k = 16: all-ones, wraps to 0), the byte above being 0xfe / 0x00 / random — minus a small offset d, and
+    request sizes chosen so that the carry happens (a) at the first / a middle / the last (partial) block of the
+    generate loop, (b) at the 1st / 2nd / 3rd increment of the Update that follows, (c) in a zero-length request."""
+    lines = []
+    combos = [(0, [0]), (0, [1]), (0, [16, 5]), (0, [17]), (2, [67]), (4, [16 * 5]), (1, [16]), (2, [16, 1]), (3, [16]),
+              (5, [48, 5]), (7, [16 * 6 + 1]), (40, [16 * 40 + 9])]
+    if not quick:
+        combos += [(d, [16 * nb + tail]) for d in range(0, 9) for nb in range(0, 9) for tail in (0, 1)]
+    for k in range(1, 17):
+        for (d, reqs) in combos:
+            above = rng.choice([0xfe, 0x00, rng.below(255)])
+            hi = rbytes(rng, 16 - k)
+            if k < 16:
+                hi = hi[:-1] + bytes([above])
+            v = (int.from_bytes(hi + b"\xff" * k, "big") - d) % 2**128
+            pers = rbytes(rng, 48) if rng.below(5) == 0 else None
+            seed = crafted_seed(v.to_bytes(16, "big"), rng, pers)
+            lines.append("drbg.run %s %s %s" % (hx(seed), hx(pers) if pers else "-", " ".join("%x" % n for n in reqs)))
+            if hist is not None:
+                hist["carry_k=%d" % k] = hist.get("carry_k=%d" % k, 0) + 1
+    return lines
+
+
 def corr_drbg(ctx, exe, quick):
     rng = ctx.rng.fork("drbg")
     lines = []
+    carry_hist = {}
+    crafted = crafted_drbg_lines(ctx.rng.fork("drbg-crafted"), quick, carry_hist)
+    ctx.coverage["drbg_crafted_V_carry_shapes"] = carry_hist
+    for l in crafted:
+        ctx.case("drbgcarry:" + hashlib.sha1(l.encode()).hexdigest()[:12])
     fixed = [[0], [1], [15], [16], [17], [0, 1, 15, 16, 17, 10**4], [16, 16, 16], [17, 15, 1, 0, 33], [10**4], [31, 32, 33, 47, 48, 49]]
     seeds = [bytes(range(48)), bytes(48), bytes([255] * 48)]
     hist = {}
@@ -484,8 +525,10 @@ def corr_drbg(ctx, exe, quick):
         ctx.case("drbg:%s:%s" % (seed[:4].hex(), reqs))
     # V carry across byte boundaries: a seed cannot steer V directly, so long request sequences exercise the low-byte carry
     lines.append("drbg.run %s - %s" % (hx(bytes(range(48))), " ".join("%x" % 4096 for _ in range(3))))
+    lines += crafted
     ctx.coverage["drbg_request_hist"] = hist
     ctx.sample(dict(kind="drbg", op=lines[5][:200]))
+    ctx.sample(dict(kind="drbg-crafted-V", op=crafted[0][:200]))
     rc, cout, cerr = vlib.run_c([exe], lines)
     bad = []
     for i, l in enumerate(lines):
@@ -495,8 +538,10 @@ def corr_drbg(ctx, exe, quick):
             d["what"] = w; bad.append(d)
     ctx.obligation("randombytes (real code) == pure-Python SP 800-90A CTR_DRBG on %d histories" % len(lines), not bad, json.dumps(bad[:1])[:500])
     for d in bad[:3]:
+        t = d["op"].split()
         ctx.violation("drbg:" + hashlib.sha1(d["op"].encode()).hexdigest()[:12], d["what"],
-                      dict(op=d["op"][:2000], impl=d["impl"][:600], oracle="pure-Python CTR_DRBG (tools/props/c20.py)"))
+                      dict(op=d["op"][:2000], seed=t[1], personalization=t[2], request_sizes=[int(x, 16) for x in t[3:]],
+                           impl=d["impl"][:600], oracle="pure-Python CTR_DRBG (tools/props/c20.py)"))
     # determinism: same seed, same request sequence => same bytes (second run in the same process after re-init)
     rc2, cout2, _ = vlib.run_c([exe], lines[:6] + lines[:6])
     ctx.obligation("randombytes deterministic (re-init with the same seed, same requests)", cout2[:6] == cout2[6:12] and len(cout2) == 12)
@@ -674,10 +719,15 @@ def search(ctx, state):
                     % (t[1], len(unhx(t[3])), int(t[2], 16)),
                     dict(op=l[:4000], impl=got[:400], expected=want[:400], oracle="python3 hashlib",
                          how_to_replay="echo '<op>' | drv_hash"))
-    dl = ["drbg.run %s - 0 1 15 10 11 2710" % hx(bytes(range(48)))]
+    dl = ["drbg.run %s - 0 1 15 10 11 2710" % hx(bytes(range(48)))] + crafted_drbg_lines(ctx.rng.fork("drbg-crafted"), True)
     rc, cout, cerr = vlib.run_c([exe], dl)
-    d = dict(op=dl[0], impl=cout[0] if cout else "<none>")
-    w = drbg_oracle(d)
-    if w:
-        return ("drbg:" + dl[0][:40], w, dict(op=dl[0], impl=d["impl"][:600], oracle="pure-Python CTR_DRBG"))
+    for i, l in enumerate(dl):
+        d = dict(op=l, impl=cout[i] if i < len(cout) else "<none>")
+        w = drbg_oracle(d)
+        if w:
+            t = l.split()
+            return ("drbg:" + hashlib.sha1(l.encode()).hexdigest()[:12], w,
+                    dict(op=l, seed=t[1], personalization=t[2], request_sizes=[int(x, 16) for x in t[3:]], impl=d["impl"][:600],
+                         oracle="pure-Python SP 800-90A CTR_DRBG (tools/props/c20.py)",
+                         how_to_replay="echo '<op>' | drv_hash   (randombytes_init(seed, pers, 256); randombytes(n) for each n)"))
     return None
